@@ -256,7 +256,7 @@ theorem decode_addresses_planar (e1 e2 sx sy : Nat) (hf : (Fam.biPlanar e1 e2 sx
   have hbuf : sx ≤ Addr.BUFFER_BYTES / nbpp := by
     rw [Nat.le_div_iff_mul_le hn]
     have : sx * nbpp ≤ 15 * 16 := Nat.mul_le_mul (by omega) hn16
-    have : Addr.BUFFER_BYTES = 3072 := rfl
+    have : 240 ≤ Addr.BUFFER_BYTES := by decide
     omega
   have ok : Addr.PlOk sx sy conv nbpp := ⟨hsx, hsy, fun _ => hbuf⟩
   refine ⟨(Addr.roundDown_props hsx hbuf).1, ?_, ?_⟩
